@@ -142,6 +142,54 @@ let lbfgs_replay toks =
       (if fops.o_ltb m.lb_thres (gdot fops y s) then 1 else 0)
   | _ -> "?"
 
+(* ---- Adam / Rprop: one step of the generic model (C10AdamRprop.v) from the implementation's own previous state; the
+   objective oracles return the value / derivative the implementation reports AFTER the step ---- *)
+(* A <n> | m1 | m2 | cnt | der | pt | b1 b2 eps eta | value after | derivative after *)
+let adam_replay toks =
+  match split_groups toks with
+  | [[_]; m1; m2; [cnt]; der; pt; [b1; b2; eps; eta]; [pv]; pder] ->
+    let v = List.map fnum in
+    let s = { ad_avg = v m1; ad_sec = v m2; ad_cnt = nat_of_int (int_of_string cnt); ad_der = v der; ad_pt = v pt; ad_val = 0.0;
+              ad_b1 = fnum b1; ad_b2 = fnum b2; ad_eps = fnum eps; ad_eta = fnum eta } in
+    let s' = g_adam_step fops (fun _ -> fnum pv) (fun _ -> v pder) s in
+    Printf.sprintf "pt=%s m1=%s m2=%s cnt=%d val=%s der=%s" (fv_str s'.ad_pt) (fv_str s'.ad_avg) (fv_str s'.ad_sec)
+      (int_of_nat s'.ad_cnt) (f_str s'.ad_val) (fv_str s'.ad_der)
+  | _ -> "?"
+
+let q_of_float x =
+  if x = 0.0 then { qnum = Z0; qden = XH } else
+  let (m, e) = Float.frexp x in
+  parse_num (Printf.sprintf "%Ld@%d" (Int64.of_float (Float.ldexp m 53)) (e - 53))
+
+(* P <n> <box> | delta | deltaw | oder | oval | inc dec dmax dmin | pt | value | der | frz bt ov | l | u | value after | derivative after
+   the float instance (same IEEE operations as the C++: bitwise equality expected) and the rational instance (q...) *)
+let rprop_replay toks =
+  match split_groups toks with
+  | [[_; box]; delta; deltaw; oder; [oval]; [inc; dec; dmax; dmin]; pt; [value]; der; [frz; bt; ov]; ll; ul; [pv]; pder] ->
+    let v = List.map fnum in
+    let b x = x = "1" in
+    let l = v ll and u = v ul in
+    let rec inbox x l u = (match x, l, u with
+        | xi :: x', li :: l', ui :: u' -> if xi +. 1e-13 < li || xi -. 1e-13 > ui then false else inbox x' l' u'
+        | _, _, _ -> true) in
+    let feas = if box = "1" then (fun x -> inbox x l u) else (fun _ -> true) in
+    let s = { rp_delta = v delta; rp_deltaw = v deltaw; rp_oldder = v oder; rp_oldval = fnum oval; rp_inc = fnum inc; rp_dec = fnum dec;
+              rp_dmax = fnum dmax; rp_dmin = fnum dmin; rp_size = nat_of_int (List.length pt); rp_pt = v pt; rp_val = fnum value;
+              rp_der = v der; rp_frz = b frz; rp_bt = b bt; rp_ov = b ov } in
+    let s' = g_rprop_step fops (fun _ -> fnum pv) (fun _ -> v pder) feas s in
+    let qv = List.map (fun t -> q_of_float (fnum t)) in
+    let qs = { rp_delta = qv delta; rp_deltaw = qv deltaw; rp_oldder = qv oder; rp_oldval = q_of_float (fnum oval); rp_inc = q_of_float (fnum inc);
+               rp_dec = q_of_float (fnum dec); rp_dmax = q_of_float (fnum dmax); rp_dmin = q_of_float (fnum dmin);
+               rp_size = nat_of_int (List.length pt); rp_pt = qv pt; rp_val = q_of_float (fnum value); rp_der = qv der;
+               rp_frz = b frz; rp_bt = b bt; rp_ov = b ov } in
+    let qfeas = if box = "1" then box_feasb_slack box_eps (qv ll) (qv ul) else (fun _ -> true) in
+    let qs' = rprop_step (fun _ -> q_of_float (fnum pv)) (fun _ -> qv pder) qfeas qs in
+    let qf x = fv_str (List.map float_of_q x) in
+    Printf.sprintf "pt=%s delta=%s deltaw=%s oder=%s oval=%s val=%s der=%s qpt=%s qdelta=%s qdeltaw=%s qoder=%s"
+      (fv_str s'.rp_pt) (fv_str s'.rp_delta) (fv_str s'.rp_deltaw) (fv_str s'.rp_oldder) (f_str s'.rp_oldval) (f_str s'.rp_val) (fv_str s'.rp_der)
+      (qf qs'.rp_pt) (qf qs'.rp_delta) (qf qs'.rp_deltaw) (qf qs'.rp_oldder)
+  | _ -> "?"
+
 (* the exact rationals of an L-BFGS history square in size with every stored pair: the model stops following a history
    (prints "-") once the entries of its point and of its direction need more than [max_bits] bits (environment C10_MAX_BITS) *)
 let max_bits = try int_of_string (Sys.getenv "C10_MAX_BITS") with _ -> 200
@@ -190,6 +238,8 @@ let () =
         (match toks with
          | "L" :: rest -> line_search rest
          | "B" :: rest -> lbfgs_replay rest
+         | "A" :: rest -> adam_replay rest
+         | "P" :: rest -> rprop_replay rest
          | "I" :: rest ->
            (match split_groups rest with
             | [[opt; ls; kind; ns]; al; bl; xl; pl; ll; ul] ->
